@@ -112,14 +112,14 @@
         #[verifier::external_body]
         pub const fn from_static(src: &'static str) -> (r: HeaderName)
             ensures r.view() == crate::str_bytes(src)
-        { unimplemented!() }
+        { HeaderName { _p: () } }   // (a value, not unimplemented!(): hoot uses it in `const` items, which rustc evaluates)
     }
     impl HeaderValue {
         pub uninterp spec fn view(&self) -> Seq<u8>;
         #[verifier::external_body]
         pub const fn from_static(src: &'static str) -> (r: HeaderValue)
             ensures r.view() == crate::str_bytes(src)
-        { unimplemented!() }
+        { HeaderValue { _p: () } }
         #[verifier::external_body]
         pub fn as_bytes(&self) -> (r: &[u8])
             ensures r@ == self.view()
